@@ -19,7 +19,8 @@ NOT_CONSTRAINED = ['how many sweeps exactly are needed (the bound used is ping_i
 ASSUMPTIONS = ['cooperative scheduling only; virtual integer time']
 
 FATES = ('live-polling', 'live-websocket', 'live-upgraded', 'rejected', 'close-packet', 'disconnect-sid', 'ws-drop', 'protocol-error',
-         'vanish-silent', 'vanish-mid-poll', 'vanish-before-probe', 'vanish-after-probe', 'close-packet-ws', 'absent')
+         'vanish-silent', 'vanish-mid-poll', 'vanish-before-probe', 'vanish-after-probe', 'close-packet-ws', 'absent',
+         'close-then-request-cancelled')
 LIVE = ('live-polling', 'live-websocket', 'live-upgraded')
 PI, PT = 2, 1
 
@@ -83,6 +84,25 @@ def _hygiene(fl, f0, f1, f2, order):
             elif fate == 'close-packet':
                 sut.post(cl.sid, '1')
                 sut.settle()
+            elif fate == 'close-then-request-cancelled':
+                # the client POSTs CLOSE and drops the connection; the web server cancels the task serving the request
+                # while the application's (coroutine) disconnect handler is still awaiting
+                if fl == 1:
+                    log = sut.events
+
+                    async def slow_disconnect(sid, reason):
+                        log.append(('disconnect', sid, reason))
+                        await sut.shim.sleep(1)
+                    sut.srv.on('disconnect', slow_disconnect)
+                # no poll of this client is in flight when it goes away (the one it had open is answered first)
+                sut.app_send(cl.sid, 'flush')
+                sut.settle()
+                cl.poll = None
+                r = sut.post(cl.sid, '1')
+                sut.settle()
+                if fl == 1 and not r.done:
+                    r.task.cancel()
+                    sut.settle()
             elif fate == 'close-packet-ws':
                 cl.peer.send('1')
                 sut.settle()
@@ -183,8 +203,8 @@ def _hygiene(fl, f0, f1, f2, order):
         sut.close()
 
 
-@cond(quick=dict(timeout=170, parts=dict(FL=[0, 1], F0=[0, 1, 2, 3, 4, 5, 6, 7, 8, 9, 10, 11, 12])),
-      thorough=dict(timeout=900, parts=dict(FL=[0, 1], F0=list(range(13)))))
+@cond(quick=dict(timeout=170, parts=dict(FL=[0, 1], F0=[0, 1, 2, 3, 4, 5, 6, 7, 8, 9, 10, 11, 12, 14])),
+      thorough=dict(timeout=900, parts=dict(FL=[0, 1], F0=[0, 1, 2, 3, 4, 5, 6, 7, 8, 9, 10, 11, 12, 14])))
 def table_after_history(fl: int, f0: int, f1: int, f2: int) -> str:
     """
     pre: fl == P.FL and f0 == P.F0 and 0 <= f1 < len(FATES) and 0 <= f2 < len(FATES) and (f1 != 13 or f2 == 13)
